@@ -123,19 +123,32 @@ class UnitDomain(EffectDomain):
         if (name.endswith("BTreeMap::<K, V, A>::remove") or name.endswith("BTreeMap::<K, V, A>::remove_entry")) and len(vals) == 2 and isinstance(a, (Sym, T)):
             return [(TOP, self.with_log(store, ("remove", repr(a), repr(vals[1]))))]
         if name == "std::iter::Iterator::collect" and "BTreeMap" in (getattr(self, "cur_term", None) or {}).get("callee", {}).get("generics", ""):
-            # building a map from an iterator of entries = a fresh map + one insertion per entry, in order
+            # building a map from an iterator of entries = a fresh map + one insertion per entry, in order;
+            # collecting into Option<map> / Result<map, E> stops at the first None / Err
             from ..absint import stdmodels
+            gen_ = (getattr(self, "cur_term", None) or {}).get("callee", {}).get("generics", "")
+            opt_ = "std::option::Option<std::collections::BTreeMap" in gen_
+            res_ = "std::result::Result<std::collections::BTreeMap" in gen_
+            wrapped = opt_ or res_
             src = stdmodels.to_iter(it, args[0], store)
             if src is not None:
                 outs = []
                 for items, _, st2 in stdmodels.drive(it, src, store):
+                    if wrapped:
+                        stop = [e for e in items if isinstance(e, Agg) and ((e.path == "std::option::Option" and e.vi == 0) or (e.path == "std::result::Result" and e.vi == 1))]
+                        if stop:
+                            outs.append((stop[0], st2))
+                            continue
+                        items = tuple(e.field(0) for e in items)
                     n = st2.get(("newmaps",), 0)
                     s3 = dict(st2)
                     s3[("newmaps",)] = n + 1
                     m = Sym("newmap%d" % n)
+                    if wrapped:
+                        m = some(m) if opt_ else ok(m)
                     for e in items:
                         if isinstance(e, Agg) and len(e.fields) == 2:
-                            s3 = self.with_log(s3, ("insert", repr(m), repr(e.field(0)), e.field(1)))
+                            s3 = self.with_log(s3, ("insert", "newmap%d" % n, repr(e.field(0)), e.field(1)))
                         else:
                             raise core.Undecided("a map is collected from entries of unknown shape: %r" % (e,))
                     outs.append((m, s3))
